@@ -1,4 +1,5 @@
 import MxModel.Proofs.RegistryExact
+import MxModel.Proofs.IOSession
 /-!
 # C19 – Model registry: unique names, no model dropped
 
@@ -114,6 +115,69 @@ example : openHandles [] {} demoOps [] = [1, 2, 4] ∧ ids (run [] {} demoOps).m
 /-- a `close` BEFORE the identity exists does not count, closing twice neither -/
 example : openHandles [] {} [.close 0, .new (some "A"), .close 1, .new none, .close 1] [] = [0] ∧
     ids (run [] {} [.close 0, .new (some "A"), .close 1, .new none, .close 1]).models = [0] := by
+  decide +kernel
+
+/-! ## Isolation of the models in the session-wide IOManager (`Kernels/IOSession.lean`)
+
+Several models share ONE `IOManager`; files under an absolute path are filed under the session-wide group `None`.
+`IOSession.SidDet` (a spec identity has one value and one group) holds in every state the model reaches by
+construction of the identities (`nextSid`); it is a hypothesis here, decided on the examples.  -/
+
+/-- **Closing a model leaves the others alone** (relative AND absolute paths): for every other model `m'`,
+`Model.iospecs` (with the keys of the files), every file object of its group, every session-wide file object it
+uses (identity, key, all specs) and every reference are what they were.
+Partial: `AbsPrivate st m m'` - no session-wide file object serves both models (the recorded finding
+C18-absolute-io-shared: files under an absolute path are shared by the models of a session). -/
+theorem close_leaves_other_models_specs_partial (st : IOSession.St) (m m' : Nat) (hne : m ≠ m')
+    (hdet : IOSession.SidDet st) (hpriv : IOSession.AbsPrivate st m m') :
+    IOSession.specsOf (IOSession.closeModel st m) m' = IOSession.specsOf st m' ∧
+    (IOSession.closeModel st m).ios.filter (IOSession.inGroup (some m')) =
+      st.ios.filter (IOSession.inGroup (some m')) ∧
+    (∀ io ∈ st.ios, io.group = none → (∃ s ∈ io.specs, IOSession.boundIn st.refs m' s.val = true) →
+      io ∈ (IOSession.closeModel st m).ios) ∧
+    (IOSession.closeModel st m).refs = st.refs :=
+  IOSession.closeModel_frame st m m' hne hdet hpriv
+
+example : IOSession.SidDet IOSession.demo ∧ IOSession.AbsPrivate IOSession.demo 1 0 ∧
+    IOSession.specsOf IOSession.demo 0 ≠ [] := by decide +kernel
+
+/-- the hypothesis is needed, twice: one external workbook with a sheet of each model - closing one model changes
+the file object the other one writes; one object referenced from two models - closing the one that merely
+references it deletes the other's spec -/
+example : ¬ IOSession.AbsPrivate IOSession.sharedPath 1 0 ∧
+    ¬ (∀ io ∈ IOSession.sharedPath.ios, io.group = none →
+        (∃ s ∈ io.specs, IOSession.boundIn IOSession.sharedPath.refs 0 s.val = true) →
+        io ∈ (IOSession.closeModel IOSession.sharedPath 1).ios) := by decide +kernel
+example : ¬ IOSession.AbsPrivate IOSession.sharedValue 1 0 ∧
+    IOSession.specsOf IOSession.sharedValue 0 ≠ [] ∧
+    IOSession.specsOf (IOSession.closeModel IOSession.sharedValue 1) 0 = [] := by decide +kernel
+
+/-- **C19-mutG is not the code**: `del_all_spec` over `get_ios(model)` and `get_ios(None)` deletes the external
+spec of the OTHER model -/
+example : IOSession.specsOf (IOSession.closeModelMutG IOSession.demo 1) 0 ≠ IOSession.specsOf IOSession.demo 0 ∧
+    IOSession.specsOf (IOSession.closeModel IOSession.demo 1) 0 = IOSession.specsOf IOSession.demo 0 := by
+  decide +kernel
+
+/-- **Closing a model releases what is its own**: no file object of its group remains, and no spec of a
+session-wide file is referenced by it any more.
+Partial: one spec per value in the model's view (`new_pandas` twice for one object leaves a second spec: trigger
+of C18), every spec filed under the model is referenced by it, no file object without specs. -/
+theorem close_releases_own_partial (st : IOSession.St) (m : Nat) (hopen : st.opened.contains m = true)
+    (hone : IOSession.OneSpecPerValue st m) (href : IOSession.GroupReferenced st m)
+    (hne : IOSession.NoEmptyIo st) :
+    ∀ io ∈ (IOSession.closeModel st m).ios, io.group ≠ some m ∧
+      (io.group = none → ∀ s ∈ io.specs, IOSession.boundIn (IOSession.closeModel st m).refs m s.val = false) :=
+  IOSession.closeModel_releases st m hopen hone href hne
+
+example : IOSession.demo.opened.contains 1 = true ∧ IOSession.OneSpecPerValue IOSession.demo 1 ∧
+    IOSession.GroupReferenced IOSession.demo 1 ∧ IOSession.NoEmptyIo IOSession.demo ∧
+    (IOSession.closeModel IOSession.demo 1).ios.length = 2 := by decide +kernel
+
+/-- without "one spec per value" the second spec of the object stays behind under the closed model -/
+example :
+    let st := IOSession.run {} [.newModel, .newSpec 0 "S.a" ⟨false, "a.csv"⟩ false none 1,
+      .newSpec 0 "S.b" ⟨false, "b.csv"⟩ false none 1]
+    ¬ IOSession.OneSpecPerValue st 0 ∧ (IOSession.closeModel st 0).ios.any (fun io => io.group == some 0) = true := by
   decide +kernel
 
 end MxModel.C19
